@@ -134,17 +134,33 @@ void ExitWithViolation(const std::string & cls, const std::string & detail, uint
    _exit(3);
 }
 static void OnAlarm(int) {EmitViolLine("hang", g_curOp, 0, (g_mode == 2) ? 1 : 3);}
-static int g_watchdogSecs = 20;
+static int g_watchdogSecs = 30;
 // The per-operation watchdog counts the process's CPU time (ITIMER_PROF), not wall-clock time: a busy loop in the code under test trips it after g_watchdogSecs
 // CPU-seconds however loaded the machine is, and a merely starved (or stopped) process never trips it.  A wall-clock alarm ten times as long is the backstop for
 // an operation that blocks without burning CPU (the supervisor's own time-out is the backstop behind that).
+// Head-room measurement: the CPU time of every armed interval (what the watchdog would have had to exceed) is taken with the same clock the timer counts, and the
+// largest one goes into the run's statistics as max.wd_op_cpu_ms -- evidence of how far the costliest legitimate operation stays below the watchdog.  It is never part
+// of a trace hash.  VSIM_SLOWLOG=<ms> additionally names every interval at or above that many milliseconds on stderr (a development aid).
+static double CpuNowSec() {struct timespec ts; syscall(SYS_clock_gettime, CLOCK_PROCESS_CPUTIME_ID, &ts); return (double) ts.tv_sec + 1e-9*(double)ts.tv_nsec;}
+static double g_armedAtCpu = -1.0; static char g_armedOp[512]; static uint64_t g_maxOpCpuMs = 0; static long g_slowLogMs = -1;
+static void NoteArmedIntervalEnd()
+{
+   if (g_armedAtCpu < 0.0) return;
+   const double d = CpuNowSec()-g_armedAtCpu; g_armedAtCpu = -1.0;
+   const uint64_t ms = (d > 0.0) ? (uint64_t) (d*1000.0) : 0;
+   if (ms > g_maxOpCpuMs) g_maxOpCpuMs = ms;
+   if ((g_slowLogMs >= 0)&&((long) ms >= g_slowLogMs)) {char b[768]; const int n = snprintf(b, sizeof(b), "SLOW %llu ms idx=%llu seed=%llu op=%.500s\n", (unsigned long long) ms, (unsigned long long) g_curIdx, (unsigned long long) g_curSeed, g_armedOp); (void) !write(2, b, (size_t) ((n < (int) sizeof(b)) ? n : (int) sizeof(b)));}
+}
+static uint64_t TakeMaxOpCpuMs() {const uint64_t r = g_maxOpCpuMs; g_maxOpCpuMs = 0; return r;}
 void WatchdogArm(int seconds)
 {
+   NoteArmedIntervalEnd();
    const int s = (seconds > 0) ? seconds : g_watchdogSecs;
    struct itimerval it; memset(&it, 0, sizeof(it)); it.it_value.tv_sec = s; (void) setitimer(ITIMER_PROF, &it, NULL);
    alarm((unsigned) (10*s));
+   memcpy(g_armedOp, g_curOp, sizeof(g_armedOp)); g_armedAtCpu = CpuNowSec();
 }
-void WatchdogDisarm() {struct itimerval it; memset(&it, 0, sizeof(it)); (void) setitimer(ITIMER_PROF, &it, NULL); alarm(0);}
+void WatchdogDisarm() {NoteArmedIntervalEnd(); struct itimerval it; memset(&it, 0, sizeof(it)); (void) setitimer(ITIMER_PROF, &it, NULL); alarm(0);}
 
 static void OnTerminate()
 {
@@ -165,6 +181,7 @@ static void RunOne(const WorkerDef & def, const PropDef & pd, const Plan & plan,
    try {pd.exec(plan, r);}
    catch(const Violation & v) {r.ok = false; r.cls = v.cls; r.detail = v.detail;}
    WatchdogDisarm();
+   r.stats.max("max.wd_op_cpu_ms", TakeMaxOpCpuMs());
 }
 
 // fork-per-run through a zygote.  The worker (aggregator) forks the zygote right after the warm-up; the zygote then does nothing but
@@ -211,6 +228,7 @@ static void StartZygote(const PropDef & pd)
             }
             catch(const Violation & v) {cr.ok = false; cr.cls = v.cls; cr.detail = v.detail;}
             WatchdogDisarm();
+            cr.stats.max("max.wd_op_cpu_ms", TakeMaxOpCpuMs());
             std::string line = std::string(cr.ok ? "OK " : "VIOL ") + U(cr.hash) + " " + (cr.nontrivial ? "1 " : "0 ") + U(cr.simMicros) + " " + (cr.ok ? "-" : cr.cls) + " " + Esc(cr.detail.substr(0, 3000));
             for (auto & kv : cr.stats.c) line += " " + kv.first + "=" + U(kv.second);
             line += "\n";
@@ -264,7 +282,8 @@ int WorkerMain(int argc, char ** argv, const WorkerDef & def)
    if (pd == NULL) {fprintf(stderr, "unknown property %s for engine %s\n", argv[1], def.engine); return 2;}
    const std::string mode = argv[2];
    g_verbose = Flag(argc, argv, "--verbose");
-   g_watchdogSecs = atoi(Arg(argc, argv, "--watchdog", "20"));
+   g_watchdogSecs = atoi(Arg(argc, argv, "--watchdog", "30"));
+   if (getenv("VSIM_SLOWLOG")) g_slowLogMs = atol(getenv("VSIM_SLOWLOG"));
 
    // (a fresh-process replay -- "exec" -- always runs without address-space randomisation, in every engine: where a wild read of the code under test lands
    //  (unmapped memory, a live heap block, a freed one) then no longer varies from one replay to the next, so a crash keeps its class)
